@@ -1032,7 +1032,7 @@ func (s *Service) runPipeline(ctx context.Context, rp *runnablePipeline) error {
 			if rp.forceStopped.Load() && !cerrors.IsFatalError(err) {
 				// the run was force stopped after it had already failed with
 				// this (recoverable) error: the force stop decides
-				err = cerrors.FatalError(cerrors.Errorf("%w (the run had already failed: %w)", pipeline.ErrForceStop, err))
+				err = cerrors.FatalError(cerrors.Errorf("the run had already failed (%v) when it was force stopped: %w", err, pipeline.ErrForceStop))
 			}
 			if cerrors.IsFatalError(err) {
 				// we use %+v to get the stack trace too
